@@ -339,7 +339,16 @@ where
     };
     let dense = rng.chance(0.3);
     let maxgap = if dense { 2 } else { ((2 * lim) / n as i64).clamp(2, 1_000_000) };
-    let mut pos = -rng.irange(0, lim.min(n as i64 * maxgap / 2));
+    // 64-bit axes also far away from zero (values that f64 cannot represent exactly), e.g.
+    // nanosecond time stamps: small gaps on top of a huge offset
+    let big_offset = lim > (1i64 << 40) && rng.chance(0.4);
+    let mut pos = if big_offset {
+        let off = *rng.pick(&[1_700_000_000_000_000_000i64, -2_000_000_000_000_000_003, (1i64 << 53) + 1, (1i64 << 61) - 12345]);
+        off - if off > 0 { n as i64 * maxgap.min(1000) } else { 0 }
+    } else {
+        -rng.irange(0, lim.min(n as i64 * maxgap / 2))
+    };
+    let maxgap = if big_offset { maxgap.min(1000) } else { maxgap };
     let mut v: Vec<i64> = Vec::with_capacity(n);
     for _ in 0..n {
         v.push(pos);
@@ -353,7 +362,7 @@ where
     let arr = Array1::from(xs.clone());
     ev.case(vh::rng::fnv(format!("{name}{v:?}").as_bytes()), true);
     ev.count("elem", name);
-    ev.count("axis_class", if dense { "integer-dense" } else { "integer-sparse" });
+    ev.count("axis_class", if big_offset { "integer-large-offset" } else if dense { "integer-dense" } else { "integer-sparse" });
     let mut idx: Vec<usize> = (0..n).collect();
     rng.shuffle(&mut idx);
     idx.truncate(150);
@@ -406,7 +415,7 @@ fn main() {
             0..=3 => float_case::<f64>(10_000 + case, &args, ev),
             4 | 5 => float_case::<f32>(10_000 + case, &args, ev),
             6 => int_case::<i32>(10_000 + case, &args, ev, 1_000_000_000, "i32"),
-            _ => int_case::<i64>(10_000 + case, &args, ev, 1_000_000_000_000_000, "i64"),
+            _ => int_case::<i64>(10_000 + case, &args, ev, (1i64 << 61) + (1i64 << 60), "i64"),
         })
     } else {
         Ev::new()
